@@ -124,6 +124,33 @@ PROPS = {
         assumptions=["single-threaded; one file per case; little-endian host",
                      "attribute names are non-empty and contain no NUL or comma; dimension names set by the user do not start with \"fakeDim\" (known finding otherwise)"],
     ),
+    "C20": dict(
+        lean_props=["H4.Props.C20"],
+        engines=[
+            E("limits", "e_limits.c", model="limits", cflags=["-fwrapv", "-fno-sanitize=signed-integer-overflow"],
+              quick=dict(cases=320, chunk=10, timeout=1200), thorough=dict(cases=3200, seeds=2, chunk=20, timeout=2400)),
+        ],
+        trusted_base=["hfile.c/hfiledd.c are compiled into the engine with -fwrapv so that int32 sums have two's-complement results (what wrap32 models); the rest of the library is the ASan/UBSan build",
+                      "linked-block conversion (HLconvert) and the linked-block logical length are exercised by implementation oracles only, not modelled",
+                      "Vgroup member limit: H4.Props.C08.vg_full_insert_fails (cited, not re-proved)"],
+        assumptions=["single-threaded; one H-level file per case; a DD block has at most 32767 descriptors (int16 ndds)",
+                     "the allocation model covers Hstartwrite of new elements, appending Hwrite on the last element of the file, in-place Hwrite, Hsync and close/reopen; every other allocation goes through HPgetdiskblock too but is not replayed on the model"],
+    ),
+    "C15": dict(
+        lean_props=["H4.Props.C15"],
+        engines=[
+            # one binary: cross-interface cases (T xapi ...: record codecs) + the real DFCIrle/DFCIunrle (T dfrle ...)
+            E("xapi", "e_xapi.c", model="xapi", quick=dict(cases=660, chunk=33), thorough=dict(cases=8800, seeds=4, chunk=110)),
+        ],
+        trusted_base=["only the shared record codecs are theorems (dfrle.c coder, big-endian field macros, DFTAG_SDD, DFTAG_ID/DFTAG_LD); "
+                      "group records (DFdi*), Vgroup/Vdata glue, number conversion, nc* <-> SD and the legacy-file readers are checked by the "
+                      "xapi engine on the implementation only (shadow copy in C as oracle)",
+                      "dfrle.c limits (120/121/3/128) are integer literals in the C text: measured by gen/gen.py by running the real DFCIrle"],
+        assumptions=["row lengths fit the C types: len <= INT32_MAX - 120 (DFCIrle's `i + 120 > len` is int32 arithmetic)",
+                     "DFTAG_SDD: rank 1..32767, sizes 0..2^31-1, refs < 65536; DFTAG_ID/LD: int32 sizes, int16 ncomponents/interlace, uint16 tags/refs",
+                     "DFSDclear/DFSDrestart, DFR8restart, DF24restart, DFPrestart, DFANclear before each single-file session (their static state is keyed by file NAME)",
+                     "lossy coders (JPEG, IMCOMP) excluded by the property's own text"],
+    ),
     "C05": dict(
         lean_props=["H4.Props.C05", "H4.Props.C05Bits", "H4.Props.C05NBit", "H4.Props.C05Skp"],
         engines=[
